@@ -239,6 +239,49 @@ def is_cyclic(k, adj):
     return any(i in reach[i] for i in range(k))
 
 
+GENERIC_SRC = """
+from __future__ import annotations
+import dataclasses, typing
+T = typing.TypeVar("T"); K = typing.TypeVar("K"); V = typing.TypeVar("V")
+@dataclasses.dataclass
+class Item:
+    x: int
+@dataclasses.dataclass
+class Page(typing.Generic[T]):
+    items: typing.List[T]
+    n: int = 0
+@dataclasses.dataclass
+class Pair(typing.Generic[K, V]):
+    key: K
+    value: V
+@dataclasses.dataclass
+class Report:
+    first: Page[Item]
+    second: Page[Item]
+    third: Page[int]
+    pair: Pair[str, Item]
+    again: typing.Optional[Pair[str, Item]] = None
+@dataclasses.dataclass
+class Tree:
+    kids: typing.Dict[str, Pair[str, Tree]]
+    more: typing.List[Pair[str, Tree]]
+    page: typing.Optional[Page[Tree]] = None
+@dataclasses.dataclass
+class Book:
+    a: Page[Page[Item]]
+    b: typing.List[Page[Page[Item]]]
+    c: Page[Item]
+"""
+
+
+def generic_job():
+    """User-defined generic classes, the same parametrisation reached several times (fields, sharing, cycles)."""
+    roots = ["Report", "Tree", "Book", "typing.List[Report]", "typing.Optional[Tree]", "typing.Dict[str, Book]", "Page[Item]",
+             "Pair[str, Tree]", "typing.Tuple[Page[Item], Page[Item], Page[int]]"]
+    return {"prog": {"src": GENERIC_SRC, "module": "vm_c09_generic"}, "roots": [{"ty": ["expr", e], "kind": "generic"} for e in roots],
+            "family": "generic", "meta": {}}
+
+
 def build_jobs(ctx):
     rng = ctx.rng
     jobs = []
@@ -293,6 +336,7 @@ def build_jobs(ctx):
     for inp in (ctx.focus or [])[:30]:
         if isinstance(inp, dict) and "prog" in inp and "root" in inp:
             jobs.append({"prog": inp["prog"], "roots": [inp["root"]], "family": "focus", "meta": {}})
+    jobs.append(generic_job())
     return jobs
 
 
@@ -631,7 +675,20 @@ def run_prog(job):
     if job.get("cold"):
         LOOP_LIMIT["s"] = 5.0
     try:
-        P = enc.Program(job["prog"])
+        if "src" in job["prog"]:
+            # a program given as Python source (constructs the class-spec encoding has no term for: user generics, ...)
+            import sys
+            import types
+            mod = types.ModuleType(job["prog"]["module"])
+            sys.modules[job["prog"]["module"]] = mod
+            exec(compile(job["prog"]["src"], job["prog"]["module"] + ".py", "exec"), mod.__dict__)
+
+            class P:  # noqa: N801
+                @staticmethod
+                def annotation(ts):
+                    return eval(ts[1], mod.__dict__)
+        else:
+            P = enc.Program(job["prog"])
     except BaseException as e:  # noqa: BLE001
         return {"setup_err": f"{type(e).__name__}: {e}"[:300]}
     outs = []
